@@ -326,13 +326,18 @@ def rule_failed_edges_untouched(A, R, rule):
     R.floor(rule, "failed-like final states", n, 9)
 
 
-def rule_never_started_kept(A, R, rule):
+def rule_never_started_kept(A, R, rule, which="interrupted"):
+    """which: 'interrupted' = never started and upstream-failed / aborted; 'skipped' = never started, finished without failure"""
     C = A.classes()
     pts, execok, postrun = final_points(A)
     sf = started_field(A)
     n = 0
     for (s, st) in pts:
-        if st or not (s in C["UpstreamFailed"] or s in C["Aborted"]):
+        if st:
+            continue
+        if which == "interrupted" and not (s in C["UpstreamFailed"] or s in C["Aborted"]):
+            continue
+        if which == "skipped" and s in C["FailedLike"]:
             continue
         n += 1
         for ho in (0, 1):
@@ -358,12 +363,17 @@ def rule_never_started_kept(A, R, rule):
                     bad.append(v)
             R.ob(rule, "new_history | job never started, ended in %s (output %s) | records written for it are re-inserts of what it had"
                  % (A.sname(s), "set" if ho else "unset"), not bad, site=A.site(bad[0]) if bad else "")
+        if which == "skipped":
+            continue
         # its per-dependency records: not refreshed (downstream view)
         run = nh_run(A, "edgeb|%s|none" % A.sname(s), "edge_b", [s], histout=0)
         ins = [v for v in out_ops(A, run) if v["op"] == "insert" and classify_key(v["key"])[0] == "pair"]
         R.ob(rule, "new_history | job never started, ended in %s | its per-dependency records are not rewritten" % A.sname(s), not ins,
              site=A.site(ins[0]) if ins else "")
-    R.floor(rule, "final points 'never started, upstream-failed or aborted'", n, 6)
+    if which == "interrupted":
+        R.floor(rule, "final points 'never started, upstream-failed or aborted'", n, 6)
+    else:
+        R.floor(rule, "final points 'never started, skipped'", n, 2)
 
 
 # =============================================================================================
@@ -673,6 +683,9 @@ def check_C11(A, R, tier):
                 if f[0] == "str" and any(p[0] == "histout" for p in f[1]):
                     okg = True
     R.ob("R11.2", "get_job_output returns the job's history_output", okg, detail=str(rv)[:200])
+    # R11.3: a validly skipped job (never started, finished without failure) keeps its own records, with or without an
+    # attached output (a leaf Ephemeral pruned at startup has none)
+    rule_never_started_kept(A, R, "R11.3", which="skipped")
     R.explanation = ("Value provenance (A4) at every insertion of new_history: the output record of K holds K's history_output (or its old "
                      "record), the input-list record holds the strategy's current list for K, a per-dependency record (A,B) holds A's "
                      "current output when there is one and otherwise the record A was validated against; the reported string reaches "
@@ -848,6 +861,15 @@ def sym_tag(sym):
     return sym[3] if (isinstance(sym, tuple) and len(sym) > 3) else None
 
 
+def sym_filtered(sym):
+    """was the element bound behind a filter / filter_map adaptor?  (instantiate appends 'f' / 'fm' to the base tag)"""
+    t = sym_tag(sym) or ""
+    for base in ("jobs", "nbr", "ea", "eb", "el", "sig", "cand"):
+        if t.startswith(base):
+            return "f" in t[len(base):]
+    return False
+
+
 def sym_tag_roles(sym):
     return set()
 
@@ -976,6 +998,9 @@ def filter_rules(A, R, fcl, nhrun):
                        if blk["term"]["t"]["k"] == "call" and (M.callee_name(blk["term"]["t"]) or "").endswith("::remove_node")]
             for (fidh, h) in heads:
                 for sy, (roles, _c) in nhrun.syms.items():
+                    if isinstance(sy, tuple) and sy[:3] == ("b", fidh, h) and sym_filtered(sy):
+                        okall = False
+                        why = "the loop that fills the map runs over a filtered selection of the jobs: the others register no output"
                     if isinstance(sy, tuple) and sy[:3] == ("b", fidh, h) and "dagnodes" in roles and removes:
                         okall = False
                         why = ("the map is filled from the nodes of the graph, from which %s removes jobs that are still present "
